@@ -26,6 +26,7 @@
 EXTENDS Naturals, Sequences, FiniteSets, TLC
 
 CONSTANTS MaxDefs,        \* number of definitions in a configuration
+          SelfNamed,      \* TRUE: the pool also holds a definition whose short name equals its root namespace name (a.a)
           Lean,           \* TRUE: references limited to absolute ones (single or ordered pairs): graph shapes only
           DirSet,         \* directories in use (1 = target root a, 2 = lookup b, 3 = lookup a')
           Rich,           \* TRUE: full identity pool and reference pool
@@ -38,12 +39,12 @@ VARIABLES ph, case, out
 vars == <<ph, case, out>>
 
 NsOf(dir) == IF dir = 2 THEN "b" ELSE "a"
-LowerOf(n) == CASE n = "X" -> "x" [] n = "Y" -> "y" [] n = "Z" -> "z" [] OTHER -> n
+LowerOf(n) == CASE n = "X" -> "x" [] n = "Y" -> "y" [] n = "Z" -> "z" [] OTHER -> n      \* "a" is lower case already
 Id(d) == [dir |-> d.dir, name |-> d.name, maj |-> d.maj, min |-> d.min]
 SameNV(a, b) == NsOf(a.dir) = NsOf(b.dir) /\ a.name = b.name /\ a.maj = b.maj /\ a.min = b.min
 
 \* sort key of dsdl_file_sort: (full name, -major, -minor); ties (same name and version in two directories) by dir
-NameRank(d) == (IF NsOf(d.dir) = "a" THEN 0 ELSE 100) + (CASE d.name = "X" -> 1 [] d.name = "Y" -> 2 [] d.name = "Z" -> 3 [] OTHER -> 9)
+NameRank(d) == (IF NsOf(d.dir) = "a" THEN 0 ELSE 100) + (CASE d.name = "X" -> 1 [] d.name = "Y" -> 2 [] d.name = "Z" -> 3 [] OTHER -> 9)   \* "a.X" < "a.Y" < "a.a"
 Before(a, b) == \/ NameRank(a) < NameRank(b)
                 \/ NameRank(a) = NameRank(b) /\ a.maj > b.maj
                 \/ NameRank(a) = NameRank(b) /\ a.maj = b.maj /\ a.min > b.min
@@ -153,6 +154,7 @@ Result(c) ==
 Vers == IF Rich THEN { <<0, 1>>, <<0, 2>> } ELSE { <<0, 1>> }
 IdPool == { [dir |-> d, name |-> n, maj |-> v[1], min |-> v[2]] : d \in DirSet, n \in {"X", "Y"}, v \in Vers }
           \cup { [dir |-> d, name |-> "X", maj |-> 0, min |-> 2] : d \in DirSet \cap {1, 2} }
+          \cup (IF SelfNamed THEN { [dir |-> 1, name |-> "a", maj |-> 0, min |-> 1] } ELSE {})
 AbsRef(i) == [ns |-> NsOf(i.dir), name |-> i.name, maj |-> i.maj, min |-> i.min]
 CaseRef(j) == [ns |-> NsOf(j.dir), name |-> LowerOf(j.name), maj |-> j.maj, min |-> j.min]
 RelRef(j) == [ns |-> "rel", name |-> j.name, maj |-> j.maj, min |-> j.min]
